@@ -186,11 +186,15 @@ def clientStep : Option Nat → WOp → Option (Option Nat)
   | some n, .consume d => if d.length ≤ n then some Option.none else Option.none
   | _, _ => Option.none
 
-def clientOK (s : Option Nat) : List WOp → Bool
-  | [] => true
+/-- the reservation state after a call sequence; `none` if some call was not allowed -/
+def clientRun (s : Option Nat) : List WOp → Option (Option Nat)
+  | [] => some s
   | op :: ops =>
     match clientStep s op with
-    | some s' => clientOK s' ops
-    | Option.none => false
+    | some s' => clientRun s' ops
+    | Option.none => Option.none
+
+/-- the call sequence follows the protocol -/
+def clientOK (s : Option Nat) (ops : List WOp) : Bool := (clientRun s ops).isSome
 
 end Percival.Spec.ByteStream
